@@ -7,35 +7,35 @@ import json, os, subprocess, sys
 CLAIMS = {
  "C01": ("Deductive safety (K1) for every function under contract on the load path: each panic-capable SSA instruction (unchecked type assertion, index, slice, nil-map write, nil dereference, nil function call, interface comparison of uncomparable values, explicit panic) is an obligation discharged for all inputs under the function's requires; result-shape and error-propagation postconditions on the load entry points; cycle-tracker contract (an (file, service) pair seen twice is an error); decreases clauses for the index loops. Ghost assertion (callsite) in applyServiceExtends: every recursion receives a tracker made during this call whose last hop is this service (so an extends chain cannot grow without the tracker growing). NOT decided: stack depth / termination of the recursions across files, panics inside dependencies, the listed non-claims (except lists).",
          "any-tree invariant (no nil map inside an interface) assumed at reads and obliged at writes; sep (acyclic unshared YAML trees) for the frame of recursive walkers; schema validation and yaml/mapstructure are external (havoc); pointer receivers non-nil; mathematical integers."),
- "C02": ("Deductive: tree.Path.Matches against the split-parts specification; K5 table lemmas — the rule tables extracted from the SSA of init are closed (constant keys, never written outside init) and their patterns pairwise exclusive, so 'first match while ranging a map' is a function of the path; every loop over a map inside a verified function is proved with a nondeterministic iterator, i.e. for all iteration orders; K3 global frame — no function reachable from the load/derivation entry points writes a package-level variable outside a section holding a package-level mutex. The comparator of convertIntoSequence identifies equal strings only (the unstable sort has one result); ownership ghost assertion: ExtendService only ever merges into a map made during the call, never into the memoised services entry another extender may share. NOT decided: chain-level order-independence of multi-level extends, determinism inside dependencies, byte-identity of renderings.",
+ "C02": ("Deductive: tree.Path.Matches against the split-parts specification; K5 table lemmas — the rule tables extracted from the SSA of init are closed (constant keys, never written outside init) and their patterns pairwise exclusive, so 'first match while ranging a map' is a function of the path; every loop over a map inside a verified function is proved with a nondeterministic iterator, i.e. for all iteration orders; K3 global frame — no function reachable from the load/derivation entry points writes a package-level variable outside a section holding a package-level mutex. The comparator of convertIntoSequence identifies equal strings only (the unstable sort has one result); ownership ghost assertion: ExtendService only ever merges into a map made during the call, never into the memoised services entry another extender may share. Structural lemma: every range over a package-level map reachable from the entry points is over a declared table or an enumerable frozen rule table inside a function under contract. NOT decided: chain-level order-independence of multi-level extends, determinism inside dependencies, byte-identity of renderings.",
          "sort/yaml/json encoders assumed to order map keys; mapstructure struct decoding assumed order-independent; reachability for the global frame is a static over-approximation of the call graph."),
- "C03": ("Deductive functional contracts of every canonical transformer (long form is a fixed point, short form maps to the documented long form, unsupported dynamic type or unparsable short form is an error) and of the volume short-syntax parser helpers (bind options, type by path-likeness), plus the KEY=VALUE/list decoders of the value types. NOT decided: port-range expansion (docker/go-connections), shellwords/units/duration grammars, the rune-scanning loop of ParseVolume as a whole.",
+ "C03": ("Deductive functional contracts of every canonical transformer (long form is a fixed point, short form maps to the documented long form, unsupported dynamic type or unparsable short form is an error) and of the volume short-syntax parser helpers (bind options, type by path-likeness), plus the KEY=VALUE/list decoders of the value types. KEY=VALUE list entries are cut at the first '=' (ghost assertions at strings.Cut in the MappingWithEquals and Labels decoders). NOT decided: port-range expansion (docker/go-connections), shellwords/units/duration grammars, the rune-scanning loop of ParseVolume as a whole.",
          "assumed contracts of strings.*, nat.ParsePortSpecs, mapstructure (transform.encode is a trusted wrapper), fmt.Sprintf results are arbitrary strings."),
- "C04": ("Deductive, all inputs and all map iteration orders: functional contracts of the merge engine (mergeMappings: untouched keys preserved, new and x- keys taken from the override, result is the base map; mergeYaml: unique-rule dispatch, replace-wholesale rows, generic scalar/map/list rules and error cases), of every merge rule and unicity indexer, enforceUnicity index safety, short-form conversion yields pairwise distinct fresh entries; K5 table lemmas for both rule tables (rows as the property demands, patterns pairwise exclusive). NOT decided: end-to-end 'split sources load to the single-document project'.",
+ "C04": ("Deductive, all inputs and all map iteration orders: functional contracts of the merge engine (mergeMappings: untouched keys preserved, new and x- keys taken from the override, result is the base map; mergeYaml: unique-rule dispatch, replace-wholesale rows, generic scalar/map/list rules and error cases), of every merge rule and unicity indexer, enforceUnicity index safety, short-form conversion yields pairwise distinct fresh entries; K5 table lemmas for both rule tables (rows as the property demands, patterns pairwise exclusive). mountIndexer keys are <default path>/<name> for short grants and grants without target (fmt.Sprintf modelled as concatenation), so short and long grants of the same target collide. NOT decided: end-to-end 'split sources load to the single-document project'.",
          "sep for recursive walkers; any-tree invariant; strings/slices/fmt models."),
- "C05": ("Deductive: deepClone yields fresh maps and lists (a base shared by two extenders stays intact), cycleTracker.Add reports a repeated (file, service) pair and never mutates the receiver, applyServiceExtends error cases (missing service reference, non-string file, missing base) and ExtendService = mergeYaml at services.x. Ghost assertions at the call of ExtendService (first argument fresh) and at the recursive call (tracker fresh, last hop = this service). NOT decided: transitivity over chains, visit-order independence, equality with the flattened document, base-directory obligations that depend on context values.",
+ "C05": ("Deductive: deepClone yields fresh maps and lists (a base shared by two extenders stays intact), cycleTracker.Add reports a repeated (file, service) pair and never mutates the receiver, applyServiceExtends error cases (missing service reference, non-string file, missing base) and ExtendService = mergeYaml at services.x. Ghost assertions at the call of ExtendService (first argument fresh) and at the recursive call (tracker fresh, last hop = this service). The recursion into a same-file base is only made for a declared service (missing base is an error). NOT decided: transitivity over chains, visit-order independence, equality with the flattened document, base-directory obligations that depend on context values.",
          "context.Context values, ResourceLoader implementations and file loads are external (havoc)."),
- "C06": ("Deductive: importResource (absent name added, existing entries keep their value, conflict is an error, non-mapping sections are errors) for all iteration orders, importResources covers exactly the five sections, loadIncludeConfig short/long forms. NOT decided: paste equivalence end to end, environment layering through dotenv/filepath (external), nesting.",
+ "C06": ("Deductive: importResource (absent name added, existing entries keep their value, conflict is an error, non-mapping sections are errors) for all iteration orders, importResources covers exactly the five sections, loadIncludeConfig short/long forms. Each included file is loaded with exactly the parent environment (which wins) plus its own env-file variables (ghost assertion at loadYamlModel; Mapping.Merge has a proved frame). NOT decided: paste equivalence end to end, environment layering through dotenv/filepath (external), nesting.",
          "reflect.DeepEqual is an arbitrary boolean; filepath.Join/os.Stat external."),
  "C07": ("Deductive safety and functional contracts in package template: brace matcher result range, operators decline without their separator and report 'applied' with it, error shapes, partition/SplitN safety where the separator is a literal. NOT decided: operator value semantics through callback results (no term for applying a function value), tokenisation by regexp, nesting.",
          "regexp and callbacks are havoc; strings.* models."),
  "C08": ("Deductive: recursiveInterpolate preserves shape one level deep, non-string scalars identical, scalars never error; getCasterForPath unique match; toBoolean/toInt*/toFloat* contracts; K5 join re-derived on every run from schema/compose-spec.json x go/types x cast table x transformer table: every schema leaf admitting a string next to boolean/integer/number decodes into a Go field reachable by the interpolation cast, the decode-time cast, a custom decoder or a canonical transformer. Structural lemma: every converter named by the interpolation cast table is also the one the decode-time hook loader.cast calls (shared converters). NOT decided: `$`->`$$` equivalence (regexp), agreement of the two conversions on every text (strconv).",
          "cast table rows obtained by executing the package initialisers of the real code (input-free); strconv external."),
- "C09": ("Deductive marshaller contracts of the hand-written renderers (SSHKey, EnvFile, UlimitsConfig, UnitBytes, Duration, HostsList, ShellCommand): the rendered short form is the one the decoder accepts. ConfigObjConfig: the YAML and JSON renderings are of the same blanked copy (content dropped when the config comes from the environment), stated with unbox() on the returned/marshalled interface value. NOT decided: the whole round trip through parser, schema, canonicalisation and reflection-driven decoding; the tag lemma was not built.",
+ "C09": ("Deductive marshaller contracts of the hand-written renderers (SSHKey, EnvFile, UlimitsConfig, UnitBytes, Duration, HostsList, ShellCommand): the rendered short form is the one the decoder accepts. ConfigObjConfig: the YAML and JSON renderings are of the same blanked copy (content dropped when the config comes from the environment), stated with unbox() on the returned/marshalled interface value. Structural `rendered` rules: ServiceDependency.Required and EnvFile.Required (absent means true) carry no omitempty. NOT decided: the whole round trip through parser, schema, canonicalisation and reflection-driven decoding; the tag lemma was not built.",
          "yaml.v3 / encoding/json honour Marshaler and tags (assumed)."),
  "C10": ("Deductive: checkConsistency — each rule (image or build, dockerfile xor inline, platform in build.platforms, network_mode excludes networks, networks/volumes/secrets/configs declared, memory/pids agreement, watch target, secret source) holds for every service when no error is returned, proved with the map-loop invariant for all orders; validation.check* rules (external with creation parameters, file object sources, device requests) with their converse error cases; graph cycle check safety. NOT decided: acyclicity soundness lemma (K6 not built), rules that need callee contracts in other packages (depends_on targets through GetService).",
          "fmt.Sprintf arbitrary; graph generics verified on the generic body."),
  "C11": ("Deductive: every default sets its key only when absent and to the documented value (port protocol/mode, build context, secret target via transformer tables, device count, depends_on condition/required, env_file required), normalizeNetworks (default network iff neither network_mode nor networks, explicit values untouched), setNameFromKey (explicit names never overwritten), implicit depends_on entries never overwrite declared ones (loop invariants, all orders). NOT decided: `<project>_<key>` naming text (fmt.Sprintf), origin independence.",
          "fmt.Sprintf/strconv arbitrary."),
- "C12": ("Deductive: every resolver (absPath, absContextPath, absExtendsPath, maybeUnixPath, absVolumeMount, volumeDriverOpts, ExpandUser, isWindowsAbs/volumeNameLen with loop invariants and decreases): absolute, URL-like/remote, Windows-absolute and non-path values are returned unchanged, only bind mounts and local bind devices are touched, other keys framed; the resolver table rows are preconditions of the walker obliged where the table literal is built, and the walker dispatches over the bound methods. NOT decided: relative => Join(base, v) text (filepath.Join variadic, external), symlinks, per-origin base directories.",
+ "C12": ("Deductive: every resolver (absPath, absContextPath, absExtendsPath, maybeUnixPath, absVolumeMount, volumeDriverOpts, ExpandUser, isWindowsAbs/volumeNameLen with loop invariants and decreases): absolute, URL-like/remote, Windows-absolute and non-path values are returned unchanged, only bind mounts and local bind devices are touched, other keys framed; the resolver table rows are preconditions of the walker obliged where the table literal is built, and the walker dispatches over the bound methods. Absoluteness is decided on the ~-expanded value and a value absolute once expanded is returned expanded (res_ExpandUser_1). NOT decided: relative => Join(base, v) text (filepath.Join variadic, external), symlinks, per-origin base directories.",
          "filepath/path/os external; sep for the walker."),
  "C13": ("Deductive, sequential facts only: enter/done/ready/skip/visit contracts (status only moves absent -> entered -> visited under the mutex, ready iff all dependencies visited), graph construction does not modify the project, roots/leaves/adjacent nodes. Ghost assertion: the errgroup limit is maxConcurrency + 1 (one slot for the coordinator). NOT applicable to this technique and NOT decided: all interleavings, the concurrency bound, liveness, first-error propagation.",
          "goroutines, channels, errgroup and select are not interleaved (external)."),
- "C14": ("Deductive ownership: generated contracts (from go/types) for the 60 deriveDeepCopy functions — every field assigned, pointer/map/slice fields nil iff the source's and otherwise fresh; Project/ServiceConfig deepCopy fresh; derivations (WithProfiles, WithServicesDisabled, WithoutUnnecessaryResources, marshal options) store only fresh objects into the result. Slim ownership chain proved end to end: deriveDeepCopy of the services map -> deriveDeepCopyProject -> deepCopy -> WithServicesDisabled / WithSelectedServices: every container held by a service of the result is made during the call (mapsFresh), result and result.Services fresh. NOT decided: frames of the map/slice copy loops (listed as not claimed), WithSelectedServices functional clauses.",
+ "C14": ("Deductive ownership: generated contracts (from go/types) for the 60 deriveDeepCopy functions — every field assigned, pointer/map/slice fields nil iff the source's and otherwise fresh; Project/ServiceConfig deepCopy fresh; derivations (WithProfiles, WithServicesDisabled, WithoutUnnecessaryResources, marshal options) store only fresh objects into the result. Slim ownership chain proved end to end: deriveDeepCopy of the services map -> deriveDeepCopyProject -> deepCopy -> WithServicesDisabled / WithSelectedServices: every container held by a service of the result is made during the call (mapsFresh), result and result.Services fresh. The same chain for networks/volumes/secrets/configs (net/vol/sec/cfgFresh) up to WithoutUnnecessaryResources; all frame obligations proved with frame() loop invariants (pure for deepCopy, WithProfiles, WithServicesDisabled, WithoutUnnecessaryResources and the generated copies). NOT decided: frames of the map/slice copy loops (listed as not claimed), WithSelectedServices functional clauses.",
          "copy() havocs the destination row; dynamic callbacks external."),
  "C15": ("Deductive: HasProfile characterisation, AllServices, WithProfiles (dom preserved, Profiles' = profiles, wf'), WithServicesDisabled (moved services, no remaining dependency on a moved one), WithoutUnnecessaryResources subset direction, getServicesByNames. NOT decided: exact characterisations that need nested-loop names, determinism as a relational property.",
          "see C14."),
- "C16": ("Deductive: MappingWithEquals.OverrideBy/Resolve/RemoveEmpty, Mapping.Merge (never overrides), ToMappingWithEquals, Labels helpers, NewMapping* decoders for all orders; env file lookup order in dotenv.GetEnvFromFile closure. The env-file lookup closure of WithServicesEnvironmentResolved returns the already parsed value first (deref of the stored *string), dotenv.expandVariables consults the lookup function first and earlier lines second (stated over the callback's actual results, dyn1.*). NOT decided: value-level statements needing *string dereference in full, file system behaviour.",
+ "C16": ("Deductive: MappingWithEquals.OverrideBy/Resolve/RemoveEmpty, Mapping.Merge (never overrides), ToMappingWithEquals, Labels helpers, NewMapping* decoders for all orders; env file lookup order in dotenv.GetEnvFromFile closure. The env-file lookup closure of WithServicesEnvironmentResolved returns the already parsed value first (deref of the stored *string), dotenv.expandVariables consults the lookup function first and earlier lines second (stated over the callback's actual results, dyn1.*). Inline labels override label files (ghost assertion over the values of the final mapping, with deref()). NOT decided: value-level statements needing *string dereference in full, file system behaviour.",
          "lookup callbacks assumed pure where stated; dotenv parsing per C18."),
  "C17": ("Deductive: cli.withNamePrecedenceLoad (explicit name, then COMPOSE_PROJECT_NAME, else not imperative), WithName, WithOsEnv never overrides, WithEnv, dotenv.GetEnvFromFile lookup consults the current environment first then earlier files. NOT decided: NormalizeProjectName shape (regexp), loader.projectName clauses that cross yaml decoding.",
          "regexp/strings.ToLower/filepath external."),
